@@ -373,6 +373,7 @@ int main( int argc, char** argv )
         else if ( mode == "inj" ) run_inj( c );
         else if ( mode == "pool" ) run_pool( c );
         else { std::fprintf( stderr, "unknown mode %s\n", mode.c_str()); return 2; }
+        std::fflush( stdout );   // a crash / hang in a later case must not lose this one
     }
     return 0;
 }
